@@ -3,6 +3,7 @@
    (order1 = {var: {param: coeff}}, order2 = {Pair(u,w): {}} -- a dict, so auto_cross_derivatives = False --
    on every operator one of whose parameters depends on u or w; nothing on the others):
      dop0   constant operator, nothing declared
+     plain_*  SPOILER / RESET / Wait / PD(pd, reset): no differentiable parameter, DPlain
      dopD   one variable v driving one parameter p, pair (v,v)                     (diagonal entry)
      dopV   one variable vv (one of u, w) driving one parameter p, pair (u,w)     (mixed entry)
      dopXY  u driving p and w driving q <> p of the SAME operator, pair (u,w)     (mixed entry)
@@ -119,6 +120,22 @@ Proof.
   split; [reflexivity|split; [reflexivity|split]].
   - intros p l H. discriminate H.
   - cbn [is_shift]. split; reflexivity.
+Qed.
+
+(* =============== operators without differentiable parameter, applied through Operator.__call__ ===============
+   SPOILER, RESET, Wait: the instruction over L is the same operator; PD(pd, reset): the density over L is the
+   value of the density over K, which is a constant (all its derivative parts vanish) *)
+Lemma plain_spoil_ok v1 v2 b : pair_ok12 v1 v2 b (@OSpoil S1) (DPlain (@OSpoil S2)).
+Proof. reflexivity. Qed.
+Lemma plain_reset_ok v1 v2 b : pair_ok12 v1 v2 b (@OReset S1) (DPlain (@OReset S2)).
+Proof. reflexivity. Qed.
+Lemma plain_wait_ok v1 v2 b : pair_ok12 v1 v2 b (@OWait S1) (DPlain (@OWait S2)).
+Proof. reflexivity. Qed.
+Lemma plain_pd_ok v1 v2 b (p1 : S1) (r : bool) : dv1 p1 = k0 -> dv2 p1 = k0 -> dv12 p1 = k0 ->
+  pair_ok12 v1 v2 b (@OPD S1 p1 r) (DPlain (@OPD S2 (ev p1) r)).
+Proof.
+  intros H1 H2 H12. cbn [DiffPoint2.pair_ok12]. exists p1.
+  split; [reflexivity|split; [reflexivity|split; [exact H1|split; [exact H2|exact H12]]]].
 Qed.
 
 (* =============== dopD: variable v drives parameter p; pair (v, v) =============== *)
